@@ -506,6 +506,8 @@ class BitArray(Bits):
 
     def _rol_msb0(self, bits: int, start: Optional[int] = None, end: Optional[int] = None):
         start, end = self._validate_slice(start, end)
+        if start == end:
+            return
         bits %= (end - start)
         if bits == 0:
             return
